@@ -112,6 +112,16 @@ theorem trimLiteral_map (hσ : Function.Injective σ) (l : Bytes) (k : TrimKind)
   · rfl
   · cases k <;> simp only [trimStart_map hσ, trimEnd_map hσ]
 
+theorem trimRegex_map (f : UInt8 → UInt8) (line : Bytes) (k : TrimKind) (ms : List (Nat × Nat)) :
+    trimRegex (line.map f) k ms = (trimRegex line k ms).map f := by
+  simp only [trimRegex, List.length_map, slice_map]
+
+theorem fillWithFieldsLocationsUsingRegex_map (f : UInt8 → UInt8) (buf : List Range) (line : Bytes)
+    (ms : List (Nat × Nat)) :
+    fillWithFieldsLocationsUsingRegex buf (line.map f) ms =
+      fillWithFieldsLocationsUsingRegex buf line ms := by
+  simp [fillWithFieldsLocationsUsingRegex]
+
 theorem splitRecords_map (hσ : Function.Injective σ) (eol : UInt8) :
     ∀ (input cur : Bytes),
       splitRecords (σ eol) (cur.map σ) (input.map σ) =
